@@ -31,6 +31,7 @@ import (
 	"github.com/safing/portbase/api"
 	"github.com/safing/portbase/config"
 	"github.com/safing/portbase/database"
+	"github.com/safing/portbase/database/record"
 	_ "github.com/safing/portbase/database/dbmodule"
 	"github.com/safing/portbase/dataroot"
 	"github.com/safing/portbase/log"
@@ -189,6 +190,7 @@ func (w *world) drain() {
 
 func setup() {
 	w := &world{done: make(chan doneEv, 4096), authSet: true}
+	defer func() { api.VerifSetAuthenticatorSet(false); w.authSet = false }()
 	theWorld = w
 	dir := os.Getenv("VERIF_SCRATCH_DIR")
 	if dir == "" {
@@ -273,6 +275,7 @@ type keyTmpl struct {
 }
 
 type exec struct {
+	r        *hxlib.Run
 	w        *world
 	now      int64 // logical clock (seconds)
 	rendered int64 // logical time at which the stored key strings were rendered
@@ -284,12 +287,12 @@ type exec struct {
 func newExec(r *hxlib.Run) hxlib.Exec {
 	worldOnce.Do(setup)
 	w := theWorld
-	e := &exec{w: w, byString: map[string]keyTmpl{}}
+	e := &exec{r: r, w: w, byString: map[string]keyTmpl{}}
 	// fresh state
 	api.VerifResetSessions()
-	if !w.authSet {
-		api.VerifSetAuthenticatorSet(true)
-		w.authSet = true
+	if w.authSet {
+		api.VerifSetAuthenticatorSet(false)
+		w.authSet = false
 	}
 	if w.cfgDev {
 		e.setOption(config.CfgDevModeKey, false)
@@ -530,20 +533,6 @@ func (e *exec) cookieValue(id int) string {
 	return fmt.Sprintf("unknown-session-%d", id)
 }
 
-func (e *exec) cookieID(v string) int {
-	for i, c := range e.cookies {
-		if c == v {
-			return i
-		}
-	}
-	if strings.HasPrefix(v, "unknown-session-") {
-		if n, err := strconv.Atoi(v[len("unknown-session-"):]); err == nil && n >= 0 {
-			return n
-		}
-	}
-	return junkCookieID(v)
-}
-
 func junkCookieID(v string) int {
 	h := fnv.New32a()
 	h.Write([]byte(v))
@@ -736,9 +725,17 @@ func (e *exec) doReq(f []string) string {
 	if v := basicView(authz); v != basicV {
 		return "VIEW-MISMATCH basic " + v
 	}
-	cv := "-"
+	// the cookie view: a value that is the value of an issued session is that session; anything
+	// else is classified on the template (unknown-session-N / junk), which cannot name a real session
+	cv := cookieViewOf(cRawT)
 	if val, ok := cookieValueOf(cRaw); ok {
-		cv = strconv.Itoa(e.cookieID(val))
+		for i, c := range e.cookies {
+			if c == val {
+				cv = strconv.Itoa(i)
+			}
+		}
+	} else {
+		cv = "-"
 	}
 	if cv != cView {
 		return "VIEW-MISMATCH cookie " + cv
@@ -789,7 +786,7 @@ func (e *exec) doReq(f []string) string {
 		if bridge != "1" || (target != "ep" && target != "epnone" && target != "perm") || oRaw != "" || acrm != "" || authz != "" || cRaw != "" || dirty == "1" {
 			return "bad-op"
 		}
-		code = e.dbRequest(method, strings.TrimPrefix(path, "/api/v1/"))
+		code, body = e.dbRequest(method, strings.TrimPrefix(path, "/api/v1/"))
 		if code < 0 {
 			return "HANG bridged request not answered"
 		}
@@ -815,6 +812,9 @@ func (e *exec) doReq(f []string) string {
 	head := fmt.Sprintf("st %d", code)
 	if ran {
 		head = "inv " + ranTok
+		e.r.Count("outcome:invoked")
+	} else {
+		e.r.Count(fmt.Sprintf("outcome:status-%d", code))
 	}
 	b01 := func(b bool) string {
 		if b {
@@ -826,9 +826,8 @@ func (e *exec) doReq(f []string) string {
 		return head + " ac=" + b01(ac)
 	}
 	sc := "-"
-	for _, line := range hdr["Set-Cookie"] {
-		c, err := http.ParseSetCookie(line)
-		if err == nil && c.Name == cookieName && c.Value != "" && c.MaxAge >= 0 {
+	for _, c := range (&http.Response{Header: hdr}).Cookies() {
+		if c.Name == cookieName && c.Value != "" && c.MaxAge >= 0 {
 			e.cookies = append(e.cookies, c.Value)
 			sc = strconv.Itoa(len(e.cookies) - 1)
 		}
@@ -873,36 +872,44 @@ func (e *exec) tcpRequest(method, path, host, origin, acrm, authz, cookie string
 var bridgeCode = regexp.MustCompile(`unexpected error code ([0-9]+)`)
 
 // dbRequest goes through the database interface of the "api" bridge database.
-func (e *exec) dbRequest(method, key string) int {
-	type res struct{ err error }
+func (e *exec) dbRequest(method, key string) (int, []byte) {
+	type res struct {
+		err  error
+		body []byte
+	}
 	ch := make(chan res, 1)
 	go func() {
 		var err error
+		var body []byte
 		if method == "GET" {
-			_, err = e.w.db.Get("api:" + key)
+			var rec record.Record
+			rec, err = e.w.db.Get("api:" + key)
+			if resp, ok := rec.(*api.EndpointBridgeResponse); ok && err == nil {
+				body = []byte(resp.Body)
+			}
 		} else {
 			ebr := &api.EndpointBridgeRequest{Method: method}
 			ebr.SetKey("api:" + key)
 			ebr.UpdateMeta()
 			err = e.w.db.Put(ebr)
 		}
-		ch <- res{err}
+		ch <- res{err, body}
 	}()
 	select {
 	case r := <-ch:
 		switch {
 		case r.err == nil:
-			return 200
+			return 200, r.body
 		case strings.Contains(r.err.Error(), "bridged api call failed"):
-			return 500
+			return 500, nil
 		}
 		if m := bridgeCode.FindStringSubmatch(r.err.Error()); m != nil {
 			n, _ := strconv.Atoi(m[1])
-			return n
+			return n, nil
 		}
-		return 999
+		return 999, nil
 	case <-time.After(waitTimeout):
-		return -1
+		return -1, nil
 	}
 }
 
